@@ -27,6 +27,29 @@ def aggEntryOfSexp : Sexp → Option (String × Dict Expr)
   | .list (.atom k :: ts) => do some (k, ← ts.mapM localOfSexp)
   | _ => none
 
+/-- codec of the `toq` command: expressions travel as their own wire form -/
+def sexpCodec : Codec :=
+  { pr := fun e => Sexp.toString e.toSexp,
+    ps := fun s => match Sexp.parseMany s with | some [x] => Expr.ofSexp x | _ => none }
+
+def qseqStr : QSeq → String
+  | .constant m => s!"(constant {m})"
+  | .arithmetic i d => s!"(arithmetic {i} {d})"
+  | .geometric r => s!"(geometric {r})"
+  | .closedForm s p n => s!"(closed_form {s.getD "_"} {p.getD "_"} {n})"
+  | .custom t i => s!"(custom {t} {i})"
+
+partial def qroutineStr (q : QRoutine) : String :=
+  let sp (xs : List String) : String := " ".intercalate xs
+  let ep (e : Endpoint) : String := s!"({e.routine.getD "_"} {e.port})"
+  s!"(q {q.name} {q.type.getD "_"} ({sp q.inputParams}) ({sp (q.localVars.map fun kv => s!"({kv.1} {kv.2})")}) " ++
+  s!"({sp (q.linked.map fun lk => s!"({lk.1} {sp (lk.2.map fun t => s!"({t.1} {t.2})")})")}) " ++
+  s!"({sp (q.ports.map fun p => s!"({p.name} {p.dir.name} {p.size})")}) " ++
+  s!"({sp (q.resources.map fun r => s!"({r.name} {r.ty.name} {r.value})")}) " ++
+  s!"({sp (q.conns.map fun c => s!"({ep c.1} {ep c.2})")}) " ++
+  (match q.rep with | none => "_" | some rp => s!"(rep {rp.count} {qseqStr rp.seq})") ++
+  s!" ({sp (q.children.map qroutineStr)}))"
+
 def genTables : Tables :=
   { binOps := Generated.binOpTable, unaryOps := Generated.unaryOpTable,
     builtins := Generated.builtinNames, specialParams := Generated.specialParams }
@@ -127,6 +150,14 @@ def respond (line : String) : String :=
       | .ok c => Sexp.toString (l [a "ok", c.toSexp])
       | .error e => Sexp.toString (errSexp e)
     | _, _ => "(bad-request evaluate)"
+  | some (.atom "toq" :: r :: _) =>
+    -- QREF export of an uncompiled routine in the model, and whether the model re-imports its own export
+    match Routine.ofSexp r with
+    | some r =>
+      let q := r.toQ sexpCodec
+      let back := match q.fromQ sexpCodec with | some _ => "reimported" | none => "reimport-failed"
+      s!"(ok {qroutineStr q} {back})"
+    | none => "(bad-request toq)"
   | some (.atom "leading" :: ts) =>
     -- (leading (e11 e12 ...) (e21 ...) ...): `_get_leading_terms` on exponent vectors
     match ts.mapM (fun (t : Sexp) => match t with
